@@ -3,14 +3,13 @@
 use crate::exec::Case;
 use crate::json::{self, J};
 use crate::stats::{Stats, Violation};
-use crate::{gen_case, Pass, DEFAULT_SEED, REPLAY_DIR};
+use crate::{gen_case, replay_dir, root, Pass, DEFAULT_SEED};
 use std::collections::{BTreeMap, BTreeSet};
 use std::io::{BufRead, BufReader};
 use std::process::{Command, Stdio};
 use std::sync::mpsc;
 use std::time::{Duration, Instant};
 
-pub const KNOWN_FINDINGS: &str = "/verif/known_findings.txt";
 const HANG_SECS: u64 = 300;
 
 pub fn replay_file(case: &Case, v: &Violation, minimised_with: Option<usize>) -> J {
@@ -238,10 +237,10 @@ fn run_pass(
                                 why, HANG_SECS
                             ),
                         };
-                        let _ = std::fs::create_dir_all(REPLAY_DIR);
+                        let _ = std::fs::create_dir_all(replay_dir());
                         let path = format!(
                             "{}/raw-{}-{}-{}-{}.json",
-                            REPLAY_DIR,
+                            replay_dir(),
                             prop,
                             seed,
                             pass.name(),
@@ -301,7 +300,7 @@ fn run_pass(
 
 fn known_findings(prop: &str) -> Vec<String> {
     let mut keys = Vec::new();
-    if let Ok(text) = std::fs::read_to_string(KNOWN_FINDINGS) {
+    if let Ok(text) = std::fs::read_to_string(format!("{}/known_findings.txt", root())) {
         for line in text.lines() {
             let line = line.trim();
             if !line.starts_with("known:") {
@@ -416,8 +415,8 @@ pub fn check(args: &[String]) -> i32 {
             .and_then(|s| s.parse().ok())
             .unwrap_or(if tier == "quick" { 40 } else { 20 });
         crate::REAL_EVERY.store(every, std::sync::atomic::Ordering::Relaxed);
-        for exe in [crate::c11::REALPROC, crate::c11::REALPROC_DULL] {
-            if !std::path::Path::new(exe).exists() {
+        for exe in [crate::c11::realproc(false), crate::c11::realproc(true)] {
+            if !std::path::Path::new(&exe).exists() {
                 println!("HARNESS-ERROR: {} is missing (run ./check --setup)", exe);
                 return 2;
             }
@@ -519,7 +518,7 @@ pub fn check(args: &[String]) -> i32 {
         reported += 1;
         let final_path = format!(
             "{}/{}-{}-{}-{}.json",
-            REPLAY_DIR,
+            replay_dir(),
             prop,
             seed,
             v.pass.name(),
@@ -572,8 +571,8 @@ pub fn check(args: &[String]) -> i32 {
             key: "rule=T7 cross-process".into(),
             detail: "the same run produced different observable results when executed after a different history of earlier runs in the process (16-way forward layout vs single/3-way reverse layout)".into(),
         };
-        let path = format!("{}/{}-{}-{}-{}-T7.json", REPLAY_DIR, prop, seed, pass.name(), run);
-        let _ = std::fs::create_dir_all(REPLAY_DIR);
+        let path = format!("{}/{}-{}-{}-{}-T7.json", replay_dir(), prop, seed, pass.name(), run);
+        let _ = std::fs::create_dir_all(replay_dir());
         let _ = std::fs::write(&path, replay_file(&case, &v, None).pretty());
         if known.iter().any(|k| k == &v.key) {
             known_hits.insert(v.key.clone());
@@ -701,8 +700,8 @@ pub fn check(args: &[String]) -> i32 {
         ("wall_s", J::Float(wall)),
         ("violations", J::Int(violation_lines.len() as i64)),
     ]);
-    let _ = std::fs::create_dir_all("/verif/evidence");
-    let ev_path = format!("/verif/evidence/{}.json", prop);
+    let _ = std::fs::create_dir_all(format!("{}/evidence", root()));
+    let ev_path = format!("{}/evidence/{}.json", root(), prop);
     if let Err(e) = std::fs::write(&ev_path, evidence.pretty()) {
         harness_errors.push(format!("cannot write {}: {}", ev_path, e));
     }
